@@ -34,7 +34,7 @@ c.param("self", T.Ref("mp.SimpleQueue")).param("ctx", T.Obj, default=NONE)
 c.modifies("self._reader", "self._writer", "self._rlock", "self._wlock")
 
 c = S.ext("mp.Queue.full", cite="Queue.full(): whether the bounded semaphore is exhausted")
-c.param("self", T.Ref("mp.Queue")).returns(T.Bool).modifies()
+c.param("self", T.Ref("mp.Queue")).returns(T.Bool).event("cq_full", "self", "result").modifies()
 c = S.ext("mp.Queue.close", cite="Queue.close(): no more data from this process; flushes through the feeder thread")
 c.param("self", T.Ref("mp.Queue")).event("cq_close", "self").modifies()
 c = S.ext("mp.Queue.join_thread", cite="Queue.join_thread(): joins the feeder thread")
